@@ -54,25 +54,32 @@ def h1(ctx):
         # at most once: no dealloc block reaches another
         multi = [(x["bb"], y["bb"]) for x in ds for y in ds if x is not y and y["bb"] in b.reach(x["bb"])]
         yield Ob(key_of("C13-H1", b.path, "dealloc-at-most-once"), not multi, "no path passes two dealloc calls", b.loc())
-        # coverage: with the detached==true edges and the 'no memory' arms removed, every path to return passes a dealloc
-        removed = set()
-        for x, c in res.conds.items():
-            t = b.blocks[x]["term"]
-            if canon(c, {flag}) == FT:
-                # true edge
-                removed.add((x, t["otherwise"]))
-            if tag(c) == "discr" and tag(c[1]) == "hload" and c[1][2] in (("arena",), ("kind",)):
-                for v, bb in t["arms"]:
-                    vn = None
-                    if c[1][2] == ("arena",):
-                        vn = {0: "Left", 1: "Right"}.get(int(v))
-                    else:
-                        vn = ctx.facts.variant_by_discr("object::Kind", int(v))
-                    if vn in ("Right", "Dangling"):
-                        removed.add((x, bb))
+        # coverage: the exact condition of every way to return without passing a dealloc must say `detached` or `this handle has no memory`
+        import dnf as D
         stop = frozenset(e["bb"] for e in ds)
-        reach = b.reach(0, removed=frozenset(removed), stop=stop)
-        bad = [r for r in b.returns() if r in reach]
+        bad = []
+        kinds = {int(v["discr"]): v["name"] for a_ in ctx.facts.adts.values() if a_["path"].endswith("object::Kind") for v in a_["variants"] if v["discr"] is not None}
+
+        def no_memory(f):
+            if f[0] == "bool" and canon(f[1], {flag}) == FT and f[2] is True:
+                return True
+            if f[0] == "discr" and tag(f[1]) == "hload" and f[1][2] == ("arena",):
+                return f[2] == ("eq", 1) or (f[2][0] == "ne" and 0 in f[2][1])
+            if f[0] == "discr" and tag(f[1]) == "hload" and f[1][2] == ("kind",):
+                if f[2][0] == "eq":
+                    return kinds.get(int(f[2][1])) == "Dangling"
+                left = set(kinds) - set(int(x) for x in f[2][1])
+                return bool(left) and all(kinds[k_] == "Dangling" for k_ in left)
+            return False
+        for r in b.returns():
+            cond = D.block_dnf(ev, res, b, r, stop=stop)
+            if cond is None:
+                bad.append(r)
+                continue
+            for c in cond:
+                if not any(no_memory(f) for f in c):
+                    bad.append(r)
+                    break
         yield Ob(key_of("C13-H1", b.path, "dealloc-on-every-live-path"), not bad, "every non-detached path of a handle with memory reaches a dealloc before returning", b.loc())
         for i, e in enumerate(dips):
             fs = set(canon(f, {flag}) for f in ctx.facts_of(ev, e))
